@@ -174,7 +174,9 @@ def run(ctx):
     for k in common.load_known():
         if k.get("property") == "C06" and k.get("status") == "fixed":
             ctx.log("fixed: property=C06 %s %s" % (k.get("commit"), k.get("site")))
-    ctx.cov["rule"] = ("corr: %d case lines (kinds %s), distinct = distinct case lines; search: %d synthetic clear tracks (AVC/HEVC NALU "
+    ctx.cov["rule"] = ("search also: media segments in a file of their own with an explicit tfhd base_data_offset = position of the moof "
+                       "(encrypt, encode, decode, decrypt, samples read in memory from the decrypted fragment); "
+                       "corr: %d case lines (kinds %s), distinct = distinct case lines; search: %d synthetic clear tracks (AVC/HEVC NALU "
                        "size mixes around 1,15-17,107-128,65535+-1, audio; in every generator (single fragments, files, multi-track, corr G/E/H/T/U) zero-size samples first / middle / last / first+last / random subset / all of a fragment, 1 in 3 audio and 1 in 8 video fragments - a video fragment with an empty sample that the protection-range function refuses is skipped, one that is encrypted must round-trip; senc AND saiz entry count = trun sample count; cenc/cbcs; 8/16-byte IVs incl. ff..ff; extra uuid/unknown/free "
                        "boxes in moof/traf, optional pssh in moof) through InitProtect/EncryptFragment -> encode -> decode -> DecryptInit/DecryptFragment -> encode, "
                        "byte comparison with the clear file (then per-clause diagnosis: full child lists, type + bytes, of moov/trak/mdia/minf/stbl/stsd/sample entries/moof/traf found by walking both files); %d whole files built like mp4ff-encrypt/-decrypt process them (1-4 fragments, styp, 0-2 pssh in moov, tfhd base_data_offset variants; every second file against a non-trivial trex with sample size/duration/flags per fragment in trun, in tfhd defaults or only in trex + first-sample-flags), the intermediate encrypted file checked sample by sample against a reference AES-CTR / AES-CBC-pattern encryption (crypto/aes only) under the senc entry, whose sub-sample map must be the protection ranges of the clear sample, and sample flags/dur/size/cto/decode time of the encrypted file = clear file; init segments whose entry owns a sinf / holds two sinf boxes (DecryptInit must remove the sinf it returns); 5 third-party encrypted files: sizes/timing kept; %d multi-track / multi-trun protected fragments assembled third-party style (see H): every trun data offset after DecryptFragment = clear layout, sample bytes per track, Fragment.Encode of the decrypted fragment = the clear fragment assembled the same way byte for byte; %d protected sample entries from the syntax: RemoveEncryption + Encode = plain decode + encode of the same bytes with the 4cc restored and the last sinf cut out"
